@@ -25,3 +25,10 @@ package security
 //@   loop 1 invariant result.MediumCount == cntSev(memf(result.Findings, Severity), ptr(result.Findings), rangeindex + 1, SeverityMedium)
 //@   loop 1 invariant result.LowCount == cntSev(memf(result.Findings, Severity), ptr(result.Findings), rangeindex + 1, SeverityLow)
 //@   loop 1 invariant result.TotalCount == len(result.Findings)
+
+// Cost (abstract steps, see /verif/DESIGN.md 4.20): the dollar-quote stripper is one pass. Every search (the pattern for
+// the next opening tag, strings.Index for its closing tag) costs at most the distance to what it finds, which the loop
+// then skips; a search that finds nothing costs the rest of the text and ends the loop.
+//@ func stripDollarQuotedStrings
+//@   ensures @C20 cost() <= 16*len(sql) + 100
+//@   loop 1 invariant @C20 0 <= pos && pos <= len(sql) && cost() <= 12*pos + len(sql) + 40
